@@ -1098,12 +1098,92 @@ def _c09_guards(facts):
     return r
 
 
+def rule_context_index(facts):
+    """The decision bits `is_match` and `is_rep_0long` are coded under the context (state, pos_state), pos_state = produced length mod
+    2^pb.  Whatever the spelling of the flattened index (`(state << 4) + pos_state`, a helper, named constants), two different contexts
+    must never share a probability and the index must stay inside the 192-entry table - for every pb the format allows (0..=4), not only
+    for the pb = 2 every shipped file uses.  Evaluated: the index term under all 12 states x all pos_state values x pb 0..=4 (and under
+    lengths beyond 2^pb, which must fold onto their residue); the one-dimensional tables must be indexed by the state itself."""
+    r = report.RuleResult("C01.R10", "is_match / is_rep_0long are indexed injectively by (state, len mod 2^pb) within 192 entries for pb 0..=4")
+    b = pat.body_of(facts, "DecoderState::process_next_inner")
+    r.need("the symbol decoder", b is not None)
+    if b is None:
+        return r
+    tm = Terms(b)
+    found = {}
+    for blk in b.calls():
+        if not (flow.callee(blk.term) or "").endswith("decode_bit") or len(blk.term.args) < 2:
+            continue
+        t = tm.of_operand(blk.term.args[1])
+        for q in _sub(t):
+            if q[0] == "index" and isinstance(q[1], tuple) and q[1] and q[1][0] == "field" and q[1][1] in (
+                    "is_match", "is_rep_0long", "is_rep", "is_rep_g0", "is_rep_g1", "is_rep_g2"):
+                found.setdefault(q[1][1], []).append((blk.idx, q[2]))
+    r.sites = sum(len(v) for v in found.values())
+    for tb in ("is_match", "is_rep_0long"):
+        if tb not in found:
+            r.bad("context-index|%s-missing" % tb, "cannot find the decode_bit call on `%s[..]`" % tb, pat.where(b), "unverifiable")
+            continue
+        for bb, it in found[tb]:
+            bad = None
+            try:
+                for pb in range(5):
+                    seen = {}
+                    for st_ in range(12):
+                        for ln in range(3 << pb):
+                            def leaf(q, st_=st_, ln=ln, pb=pb):
+                                if q[0] == "field" and q[1] == "state":
+                                    return st_
+                                if q[0] == "field" and q[1] == "pb":
+                                    return pb
+                                if q[0] == "call" and q[1].endswith("::len"):
+                                    return ln
+                                raise pat.NotEvaluable(q)
+                            v = pat.eval_term(it, leaf)
+                            key = (st_, ln % (1 << pb))
+                            if not (0 <= v < 192):
+                                bad = "pb = %d: context (state %d, pos_state %d) is index %d, outside the 192-entry table" % (pb, st_, key[1], v)
+                            elif v in seen and seen[v] != key:
+                                bad = "pb = %d: contexts (state %d, pos_state %d) and (state %d, pos_state %d) share entry %d" % (
+                                    pb, seen[v][0], seen[v][1], st_, key[1], v)
+                            seen[v] = key
+                            if bad:
+                                break
+                        if bad:
+                            break
+                    if bad:
+                        break
+            except (pat.NotEvaluable, pat.Overflow) as e:
+                r.bad("context-index|%s-term" % tb, "cannot evaluate the index of `%s` as a function of (state, produced length, pb): %s" % (
+                    tb, flow.show(it)[:90]), pat.where(b, bb), "unverifiable")
+                continue
+            if bad:
+                r.bad("context-index|%s" % tb, "`%s`: %s" % (tb, bad), pat.where(b, bb))
+            else:
+                r.ok("evaluation", {tb: "injective in (state, len mod 2^pb), < 192, for 12 states x pb 0..=4"})
+    for tb in ("is_rep", "is_rep_g0", "is_rep_g1", "is_rep_g2"):
+        for bb, it in found.get(tb, []):
+            try:
+                vec = [pat.eval_term(it, lambda q, st_=st_: st_ if (q[0] == "field" and q[1] == "state") else (_ for _ in ()).throw(pat.NotEvaluable(q)))
+                       for st_ in range(12)]
+            except (pat.NotEvaluable, pat.Overflow):
+                r.bad("context-index|%s-term" % tb, "cannot evaluate the index of `%s` as a function of the state" % tb, pat.where(b, bb), "unverifiable")
+                continue
+            if vec != list(range(12)):
+                r.bad("context-index|%s" % tb, "`%s` is not indexed by the state (%s)" % (tb, vec), pat.where(b, bb))
+            else:
+                r.ok("evaluation", {tb: "indexed by the state"})
+    r.need("decision-bit tables indexed in the symbol decoder (found %d)" % r.sites, r.sites >= 6)
+    return r
+
+
 def run(ctx, t0):
     facts = ctx.facts()
     pat.FACTS = facts
     from rules import rcterms
     rules = [rule_header(facts), rule_automaton(facts), rule_contexts(facts), rule_window(facts), rule_shapes(facts),
-             rcterms.rule_rangedecoder(facts), rule_state_writers(facts), _c09_guards(facts), rule_window_size(facts)]
+             rcterms.rule_rangedecoder(facts), rule_state_writers(facts), _c09_guards(facts), rule_window_size(facts),
+             rule_context_index(facts)]
     expl = ("Static, structural clauses only: the finite tables (state automaton constants and thresholds, repeat "
             "rotation, table shapes and initialisers), the index/offset/length terms and the who-writes facts of the "
             "circular window are extracted from MIR and compared with the format's. This is a necessary condition of "
